@@ -20,6 +20,8 @@ pub enum Level {
     SkipUnchecked,
     /// read_message_begin, one struct by the interpreter, read_message_end
     Envelope,
+    /// three messages in a row on one protocol instance (envelope, struct, end; three times)
+    Envelopes,
     /// protobuf leg: "pbgen:<Msg>", "pbgenld:<Msg>", "pbwrap:<ty>", "pbcodec:<codec>:<wire type>:<s|r>"
     Pb(String),
 }
@@ -33,6 +35,7 @@ impl Level {
             Level::SkipField => "skipfield".into(),
             Level::SkipUnchecked => "skipunchecked".into(),
             Level::Envelope => "envelope".into(),
+            Level::Envelopes => "envelopes".into(),
             Level::Pb(n) => n.clone(),
         }
     }
@@ -53,6 +56,7 @@ impl Level {
             "skipfield" => Some(Level::SkipField),
             "skipunchecked" => Some(Level::SkipUnchecked),
             "envelope" => Some(Level::Envelope),
+            "envelopes" => Some(Level::Envelopes),
             _ => None,
         }
     }
@@ -65,6 +69,7 @@ impl Level {
             Level::SkipField => "skipfield",
             Level::SkipUnchecked => "skipunchecked",
             Level::Envelope => "envelope",
+            Level::Envelopes => "envelope",
             Level::Pb(n) => {
                 if n.starts_with("pbgenld") {
                     "pbgenld"
